@@ -36,6 +36,15 @@ def run_prop(prop: str, tier: str, sources: SourceSet | None = None, quiet: bool
         run.quiet = quiet
         return run.finish()
     except AnalysisError as e:
+        from . import report as _report
+
+        cur = _report.CURRENT
+        if cur is not None and cur.prop == prop and cur.violations:
+            new, _, _ = cur.classify()
+            if new:
+                cur.aborted = f"{type(e).__name__}: {e}"
+                cur.quiet = quiet
+                return cur.finish()
         return analysis_error(prop, tier, level, e)
     except Exception as e:  # a crash of the checker is never a property verdict
         traceback.print_exc()
